@@ -20,6 +20,14 @@ import (
 // Root is the /verif directory (set by the driver).
 var Root = "/verif"
 
+// OutRoot returns where evidence and replays are written (VERIF_OUT, default Root).
+func OutRoot() string {
+	if o := os.Getenv("VERIF_OUT"); o != "" {
+		return o
+	}
+	return Root
+}
+
 type caseOut struct {
 	idx  int
 	desc any
@@ -322,7 +330,7 @@ func WriteReplay(id string, opt Options, desc any, res Result) (string, error) {
 		d = res.Replay
 	}
 	h := sha256.Sum256(append([]byte(res.Class+"|"), d...))
-	dir := filepath.Join(Root, "replays", id)
+	dir := filepath.Join(OutRoot(), "replays", id)
 	if err := os.MkdirAll(dir, 0o755); err != nil {
 		return "", err
 	}
